@@ -23,6 +23,15 @@ FIRST_CONTACT = {   # seeds the checks missed when first run against them, and w
     "C10-2": "missed by C10 (caught by C20) -> martingale lemma also run on re-initialised parameters",
     "C18-1": "undecided -> two successive maturities on one pricer (contract) + reused-pricer clause (battery)",
     "C18-2": "missed -> degenerate Black-Scholes branch checked with sigma = 0 and a positive maturity (forward != spot)",
+    "C01-6": "missed -> contract on LevyModel.truncate_levy_measure for an ALREADY truncated measure + mass lemma through the real integrate bodies",
+    "C01-7": "missed by C01 (caught by C12's tail-integral-belongs-to-its-model lemma) -> that unit now also runs under C01",
+    "C03-7": "undecided (object built without its constructor) -> simulation object built by the real constructor + cases 'after an earlier jump'",
+    "C04-7": "missed -> chain-constructor cases in which a drift accessor was evaluated on the caller's triplet before the chain is built",
+    "C05-5": "missed -> lemma results-computed-from-the-stored-samples (two passes, N_l / cost arrays updated in place as the engine does)",
+    "C11-5": "undecided (object built without its constructor) -> copula built by the real constructor + cases 'parameters reassigned after construction'",
+    "C14-8": "missed (only d = 3 was under contract) -> nested pairing / projection under recursive contracts, induction step at d = 3, 4, 5",
+    "C16-5": "missed -> frame clause 'the model's initial value is untouched'; engine: numpy augmented assignment now mutates in place (aliases see it)",
+    "C16-6": "missed -> time-dependent coefficient a(t, x) = G(t) in the Euler lemma and a symbolic lemma for the coupled scheme (both components)",
 }
 
 
